@@ -194,7 +194,7 @@ def fuzz_unit(focus_mask, quick_runs, thorough_runs, thorough_jobs=16):
         return rc != 0
     return dict(custom=run, replay=replay, prebuild=[FUZZ_T])
 
-HIST_RULE = ('histories = sequences of opcodes (50 kinds: every constructor/factory with valid and deliberately invalid arguments, copy, move, copy-/move-assignment, self-assignment, self-move-assignment, cross-order assignment, '
+HIST_RULE = ('histories = sequences of opcodes (51 kinds: every constructor/factory with valid and deliberately invalid arguments, copy, move, copy-/move-assignment, self-assignment, self-move-assignment, cross-order assignment, '
              'scalar * / *= /=, unary minus, + - * across orders 0..3, += -=, linearCombination, primitive / compound / spline-valued operator application, linear and bilinear forms, evaluation, union/intersection, checked accessors with index classes around 2^32, 2^63, SIZE_MAX, '
              'calls that must throw) over a pool of grids, supports and splines; rapidcheck generates vector<Op> (free histories of size-scaled length and histories with a populating prefix + 1..40 ops), libFuzzer mutates the same encoding as bytes (T=double). ')
 
